@@ -5,6 +5,7 @@ import (
 	"math"
 	"math/rand/v2"
 	"strings"
+	"sync"
 	"unicode/utf16"
 	"unicode/utf8"
 
@@ -19,7 +20,7 @@ func init() {
 		ID:    "C02",
 		Level: "exploration",
 		Rule: "every path the parser accepts from: the exhaustive operator-pair x side x trailing-accessor-chain matrix; every code point in a boundary set (all of U+0001..U+2FFF, surrogate edges, U+FFFD..U+10000, U+10FFFF; thorough: every Unicode scalar value) as key, string literal and variable name; numeric literals over the boundary grid in every spelling; every .** bound combination; every regex flag subset; random generated paths in random spellings. " +
-			"Relation: p vs Parse(p.String()) - parse succeeds, fixed point, same mode/predicate flag/tree, same typed results on generated documents - and the same through MarshalText/UnmarshalText, MarshalBinary/UnmarshalBinary, Value/Scan(string), Scan([]byte). Non-trivial: the canonical text differs from the input text; distinct by canonical text",
+			"Relation: p vs Parse(p.String()) - parse succeeds, fixed point, same mode/predicate flag/tree, same typed results on generated documents - and the same through MarshalText/UnmarshalText, MarshalBinary/UnmarshalBinary, Value/Scan(string), Scan([]byte), with the byte buffer that was handed in overwritten afterwards (a reader reusing its buffer) and, for canonical texts that contain an escape, re-read by four goroutines at once. Non-trivial: the canonical text differs from the input text; distinct by canonical text",
 		Run:          runC02,
 		Replay:       replayC02,
 		MinExercised: map[string]int64{"reparse": 20000, "fixpoint": 20000, "tree": 20000, "behaviour": 5000, "marshal.text": 20000, "marshal.binary": 20000, "sql.value-scan": 20000},
@@ -99,7 +100,10 @@ func roundTrip(c *h.Ctx, p *path.Path, src string, docs []string, r *rand.Rand) 
 			}
 			rtHold(c, 0, b, cs)
 			q := rtDest(s1, 0)
-			return q, q.UnmarshalText(b)
+			in := append([]byte(nil), b...)
+			err = q.UnmarshalText(in)
+			rtScribble(in) // the reader reuses its buffer (bufio.Scanner, a database driver)
+			return q, err
 		}},
 		{"marshal.binary", func() (*path.Path, error) {
 			b, err := p.MarshalBinary()
@@ -108,7 +112,10 @@ func roundTrip(c *h.Ctx, p *path.Path, src string, docs []string, r *rand.Rand) 
 			}
 			rtHold(c, 1, b, cs)
 			q := rtDest(s1, 1)
-			return q, q.UnmarshalBinary(b)
+			in := append([]byte(nil), b...)
+			err = q.UnmarshalBinary(in)
+			rtScribble(in)
+			return q, err
 		}},
 		{"sql.value-scan", func() (*path.Path, error) {
 			v, err := p.Value()
@@ -121,9 +128,11 @@ func roundTrip(c *h.Ctx, p *path.Path, src string, docs []string, r *rand.Rand) 
 			}
 			s, _ := v.(string)
 			q2 := rtDest(s1, 3)
-			if err := q2.Scan([]byte(s)); err != nil {
+			in := []byte(s)
+			if err := q2.Scan(in); err != nil {
 				return nil, err
 			}
+			rtScribble(in)
 			if q2.AST == nil || q.AST == nil || q2.String() != q.String() {
 				return nil, fmt.Errorf("Scan(string) and Scan([]byte) disagree")
 			}
@@ -148,6 +157,7 @@ func roundTrip(c *h.Ctx, p *path.Path, src string, docs []string, r *rand.Rand) 
 		}
 	}
 	rtAfter(c, cs)
+	rtConcurrent(c, s1, s2, t2, cs)
 	// behaviour on documents (typed comparison)
 	if len(docs) > 0 && t1 == t2 {
 		return // same tree: same behaviour; spend the executions where the tree differs or on a sample
@@ -178,6 +188,103 @@ func roundTrip(c *h.Ctx, p *path.Path, src string, docs []string, r *rand.Rand) 
 			return
 		}
 		c.Held("behaviour")
+	}
+}
+
+// rtConcurrent: reading a stored path back is something many goroutines do at
+// once (a connection pool scanning rows, handlers loading configuration), and
+// each of them must get the path that was written. Canonical texts that
+// contain an escape are collected; every rtBatchSize of them are re-read by
+// four goroutines at the same time, through Parse and UnmarshalText, and each
+// result is compared with the tree and the text the sequential read gave.
+const rtBatchSize = 32
+
+type rtItem struct {
+	text, print, tree string // the text, and what its sequential read prints and is
+	cs                h.Case
+}
+
+var rtBatch []rtItem
+
+func rtConcurrent(c *h.Ctx, s1, s2, t2 string, cs h.Case) {
+	if !strings.Contains(s1, `\u`) {
+		return
+	}
+	rtBatch = append(rtBatch, rtItem{s1, s2, t2, cs})
+	if len(rtBatch) < rtBatchSize {
+		return
+	}
+	batch := rtBatch
+	rtBatch = nil
+	var mu sync.Mutex
+	var bad []string
+	var badCase []h.Case
+	var wg sync.WaitGroup
+	for gi := 0; gi < 4; gi++ {
+		wg.Add(1)
+		go func(gi int) {
+			defer wg.Done()
+			for rep := 0; rep < 3; rep++ {
+				for k := range batch {
+					it := batch[(k*7+gi*5+rep)%len(batch)]
+					var q *path.Path
+					var err error
+					pan := h.Guard(func() {
+						if (k+gi)%2 == 0 {
+							q, err = path.Parse(it.text)
+						} else {
+							q = new(path.Path)
+							err = q.UnmarshalText([]byte(it.text))
+						}
+					})
+					msg := ""
+					switch {
+					case pan != "":
+						msg = "panicked: " + firstLine(pan)
+					case err != nil:
+						msg = "failed: " + err.Error()
+					case q.String() != it.print:
+						msg = fmt.Sprintf("gave a path that prints %q", q.String())
+					case gen.FromAST(q.AST).Sexp() != it.tree:
+						msg = "gave the tree " + gen.FromAST(q.AST).Sexp() + ", not " + it.tree
+					}
+					if msg != "" {
+						mu.Lock()
+						bad = append(bad, fmt.Sprintf("reading %q back while three other goroutines read other paths back %s", it.text, msg))
+						badCase = append(badCase, it.cs)
+						mu.Unlock()
+						return
+					}
+				}
+			}
+		}(gi)
+	}
+	wg.Wait()
+	c.Eval(4 * 3 * len(batch))
+	if len(bad) > 0 {
+		c.Violate("reparse.concurrent", h.F("kind", "differs-from-sequential"), bad[0], badCase[0])
+		return
+	}
+	c.Held("reparse.concurrent")
+}
+
+// rtScribble overwrites a buffer that was handed to UnmarshalText /
+// UnmarshalBinary / Scan: those must not retain it (encoding.TextUnmarshaler,
+// encoding.BinaryUnmarshaler and sql.Scanner all say the callee copies what it
+// keeps), so the decoded path must not change. Digits stay digits and letters
+// letters, so that a retained view still looks like a token.
+func rtScribble(b []byte) {
+	for i, ch := range b {
+		switch {
+		case ch >= '0' && ch <= '9':
+			b[i] = '0' + (ch-'0'+6)%10
+		case ch >= 'a' && ch <= 'z':
+			b[i] = 'a' + (ch-'a'+7)%26
+		case ch >= 'A' && ch <= 'Z':
+			b[i] = 'A' + (ch-'A'+7)%26
+		default:
+			b[i] = '#'
+		}
 	}
 }
 
